@@ -34,7 +34,9 @@ def stripped_digit(n: str) -> bool:
 
 
 def main(v: Verdict) -> None:
-    names = [r["name"] for r in generate(v, "Ident", "C09_MC.cfg" if TIER == "quick" else "C09_MC_thorough.cfg", min_records=300)]
+    recs = generate(v, "Ident", "C09_MC.cfg" if TIER == "quick" else "C09_MC_thorough.cfg", min_records=300)
+    names = [r["name"] for r in recs]
+    camel = {r["name"]: r["camel"] for r in recs}
     if not names:
         return
     # (a) function level: one implementation call per spec behaviour
@@ -62,6 +64,19 @@ def main(v: Verdict) -> None:
     pmod = {n: ("mparamd" if stripped_digit(n) else "mparam") for n in usable}
     for mod in ("mparam", "mparamd"):
         files[f"{mod}.py"] = "\n".join(f"def pf{k}({n}: int) -> int:\n    ...\n" for k, n in enumerate(usable) if pmod[n] == mod)
+    # two Python names that are rendered alike under conversion, met in one class through an internal superclass whose members are
+    # inlined; and an attribute that shadows a like-named property of the internal superclass
+    inh = []
+    for k, n in enumerate(pub):
+        c = camel.get(n, n)
+        if c != n and c.isidentifier() and not keyword.iskeyword(c):
+            inh.append(f"class _IB{k}:\n    def {n}(self) -> int:\n        ...\n\n\nclass ISub{k}(_IB{k}):\n    def {c}(self) -> str:\n        ...\n")
+            inh.append(f"class _IC{k}:\n    def {c}(self) -> int:\n        ...\n\n\nclass ISubC{k}(_IC{k}):\n    def {n}(self) -> str:\n        ...\n")
+        if "_" in n.strip("_"):
+            inh.append(f"class _IP{k}:\n    @property\n    def {n}(self) -> int:\n        ...\n\n    def other{k}(self) -> int:\n        ...\n\n\n"
+                       f"class ISubP{k}(_IP{k}):\n    {n}: int = 1\n")
+            inh.append(f"class _IM{k}:\n    def {n}(self) -> int:\n        ...\n\n\nclass ISubM{k}(_IM{k}):\n    {n}: int = 1\n")
+    files["minherit.py"] = "\n\n".join(inh) or "X = 1\n"
     for seg in MODSEGS:
         files[f"{seg}.py"] = "def inmod() -> int:\n    ...\n"
     pkg = write_pkg(files, PKG)
@@ -150,6 +165,7 @@ def main(v: Verdict) -> None:
     v.add_bad(bad)
     v.samples = obs[:2] + obs[-3:]
     v.extra["identifiers"] = len(names)
+    v.extra["inherited_collision_classes"] = len(inh)
     v.extra["function_level_calls"] = 3 * len(names)
     v.extra["declarations_judged"] = sum(1 for o in obs if o["kind"] == "decl")
     v.assumptions += ["all-underscore names other than '_' have no camel form and are not generated", "stub parser harness/sds.py is hand-written"]
